@@ -39,6 +39,8 @@ TEMPLATE = [
     (22, 'A', 'G', '1|1', '0|0', '0|0', 'A>G (reverse of an ignored conversion)'),
     (24, 'A', 'C', '0/0', '1/1', '0/1', 'unphased genotypes'),
     (26, 'T', 'A', '0|0', '1|.', '1|1', 'half-missing genotype'),
+    (28, 'C', '.', '0|0', '.|.', '0|0', 'reference-only record (ALT .) with a missing genotype'),
+    (29, 'G', '.', '0|0', '0|0', '0|0', 'reference-only record, every sample called'),
 ]
 MAX_POS0 = max(t[0] for t in TEMPLATE) - 1 + len(CONTIGS) - 1    # largest 0-based site position
 PROBE_POSITIONS = tuple(range(0, MAX_POS0 + 2))                     # every position 0 .. one past the last site
